@@ -618,7 +618,7 @@ func c07Gen(rng *rand.Rand) *metaCase {
 	feats := map[string]bool{}
 	nd := rng.Intn(7)
 	// the second and third set hold names that are prefixes of each other (the shorter defined before or after the longer)
-	names := [][]string{{"alpha", "b-2", "c_3", "D4", "e", "f-g_h"}, {"alpha", "b-2", "c_3", "D4", "e", "f-g_h"}, {"sh", "sh-name", "sh-name_2", "s", "D4", "D"}, {"sh-name_2", "sh-name", "sh", "D4", "D", "s"}}[rng.Intn(4)][:min(nd, 6)]
+	names := [][]string{{"alpha", "b-2", "c_3", "D4", "e", "f-g_h"}, {"alpha", "b-2", "c_3", "D4", "e", "f-g_h"}, {"sh", "sh-name", "sh-name_2", "s", "D4", "D"}, {"sh-name_2", "sh-name", "sh", "D4", "D", "s"}, {"2nd", "0", "1st-part", "-sep", "9", "_u"}}[rng.Intn(5)][:min(nd, 6)]
 	nd = len(names)
 	if core.Chance(rng, 1, 12) {
 		// a long chain of definitions, each referring to the next (depth 9..16)
@@ -672,6 +672,11 @@ func c07Gen(rng *rand.Rand) *metaCase {
 	if core.Chance(rng, 1, 3) {
 		feats["reference-in-prefix"] = true
 		body = append(body, "##!^ "+core.Pick(rng, `\b`, "")+ref())
+	}
+	if nd > 0 && core.Chance(rng, 1, 6) {
+		// an undefined reference to the left of a defined one on an affix line
+		feats["undefined-left-of-defined-in-affix"] = true
+		body = append(body, core.Pick(rng, "##!^ ", "##!$ ")+"{{nosuchhead}}x{{"+names[rng.Intn(nd)]+"}}")
 	}
 	if core.Chance(rng, 1, 3) {
 		feats["reference-in-suffix"] = true
